@@ -93,7 +93,7 @@ URL_IN_HTML_BINARY = URL_IN_HTML.encode()
 URL_IN_HTML_RE = re.compile(URL_IN_HTML, re.I | getattr(re, "A", 0))
 URL_IN_HTML_BINARY_RE = re.compile(URL_IN_HTML_BINARY, re.I)
 
-QUERY_VALUE_IN_URL_TEMPLATE = r"(?:^|[?&])(%s)=([^&]+)"
+QUERY_VALUE_IN_URL_TEMPLATE = r"(?:^|[?&])(%s)=([^&#]+)"
 QUERY_VALUE_TEMPLATE = r"%s=([^&#]+)"
 
 # NOTE: %s should be DOMAIN_LABELS_PREFIX followed by the escaped domain(s)
